@@ -415,6 +415,103 @@ func runTrie(in trieIn, wantCoq bool) (out runOut) {
 			}
 		}
 	}
+	// ----- a warm verifier: ONE trie object made from the root hash proves several keys in
+	// sequence, is flushed in between, and is then offered altered proofs for keys that share
+	// path nodes with keys it has already proven (state sync verifies key by key like this)
+	{
+		var sk [][]byte
+		for _, k := range order {
+			if _, ok := ref[string(k)]; ok && len(proofs[string(k)]) > 0 {
+				sk = append(sk, k)
+			}
+		}
+		// the same keys with other values: another root whose proofs have the same shape
+		m2 := trie_manager.NewMutable(tl.NewRecDB(), nil)
+		for kk, vv := range ref {
+			v2 := append([]byte(nil), vv...)
+			v2[0] ^= 0x55
+			m2.Set([]byte(kk), v2)
+		}
+		s2 := m2.GetSnapshot()
+		s2.Hash()
+		w := trie_manager.NewImmutable(db.NewMapDB(), root)
+		wflush := func() {
+			if f, ok := w.(trie.Snapshot); ok {
+				if err := f.Flush(); err != nil {
+					fail("warm verifier: Flush error %v", err)
+				}
+			}
+		}
+		wprove := func(k []byte, p [][]byte, what string, mustReject bool) proveObs {
+			cp := make([][]byte, len(p))
+			for i := range p {
+				cp[i] = append([]byte(nil), p[i]...)
+			}
+			var bv []byte
+			var err error
+			if pn := hxlib.Catch(func() { bv, err = w.Prove(k, cp) }); pn != "" {
+				fail("warm verifier, %s: Prove panics: %s", what, pn)
+				return proveObs{class: "other"}
+			}
+			var obs proveObs
+			switch {
+			case err == nil && bv != nil:
+				obs = proveObs{class: "val", val: append([]byte(nil), bv...)}
+			case err == nil:
+				obs = proveObs{class: "nil"}
+			case errors.CodeOf(err) == errors.NotFoundError:
+				obs = proveObs{class: "notfound"}
+			case errors.CodeOf(err) == errors.IllegalArgumentError:
+				obs = proveObs{class: "illegal"}
+			default:
+				obs = proveObs{class: "other"}
+			}
+			out.classes[obs.class]++
+			addQ(fmt.Sprintf("QProve %s %s %s %s", tl.Bx(root), tl.Bx(k), bl.refs(p), obs.coq()))
+			if obs.class == "val" {
+				if want, ok := ref[string(k)]; !ok || !bytes.Equal(want, obs.val) {
+					fail("warm verifier, %s: proof check yields value %x for key %x, stored %x", what, obs.val, k, want)
+				}
+			}
+			if mustReject && (obs.class == "val" || obs.class == "nil") {
+				fail("warm verifier (has proven other keys, flushed in between), %s: altered proof accepted (result %s %x) for key %x", what, obs.class, obs.val, k)
+			}
+			return obs
+		}
+		r.Shuffle(len(sk), func(i, j int) { sk[i], sk[j] = sk[j], sk[i] })
+		for ai, kA := range sk {
+			if ai >= 4 {
+				break
+			}
+			if o := wprove(kA, proofs[string(kA)], fmt.Sprintf("honest proof of %x", kA), false); !(o.class == "val") {
+				fail("warm verifier: honest proof of stored key %x does not verify (%s)", kA, o.class)
+			}
+			if r.Intn(3) > 0 {
+				wflush()
+			}
+			kB := sk[r.Intn(len(sk))]
+			pB := proofs[string(kB)]
+			oB := s2.GetProof(kB)
+			for i := range pB {
+				q := append([][]byte(nil), pB...)
+				x := append([]byte(nil), pB[i]...)
+				x[r.Intn(len(x))] ^= byte(1 << uint(r.Intn(8)))
+				q[i] = x
+				if r.Intn(2) == 0 {
+					wflush()
+				}
+				wprove(kB, q, fmt.Sprintf("key %x element %d/%d bit flipped", kB, i, len(pB)), true)
+				if i < len(oB) && !bytes.Equal(oB[i], pB[i]) {
+					q = append([][]byte(nil), pB...)
+					q[i] = oB[i]
+					if r.Intn(2) == 0 {
+						wflush()
+					}
+					wprove(kB, q, fmt.Sprintf("key %x element %d/%d taken from the proof under another root", kB, i, len(pB)), true)
+				}
+			}
+		}
+	}
 	// empty proof / nil proof
 	if len(order) > 0 {
 		prove(root, order[0], nil, "nil proof", true)
@@ -544,7 +641,7 @@ func replay(raw json.RawMessage) string {
 func main() {
 	hxlib.Main(hxlib.Spec{
 		ID:       "C18",
-		Rule:     "a case is one trie, with the first call on its fresh snapshot drawn from Hash/GetProof of a stored key/GetProof of an absent key/Flush (GetProof must hash the trie itself), either tiny (1-2 short keys, root node around or below the 32-byte embedding size) or regular (3-14 keys of 0-4 bytes with shared prefixes plus 32-byte keys differing in one nibble, values 1-70 bytes around the inlining threshold, a quarter of the keys deleted again) with: GetProof+Prove for up to 8 stored keys, the byte prefixes / extensions / siblings of stored keys and a random key; for 3 stored keys every proof element bit-flipped, replaced by another node, dropped, swapped, duplicated, trailing elements appended, the proof presented for other keys, against a random root, the empty root, an inner node's hash and the root of a trie with one more pair; corpus cases first; non-trivial = at least two hashed nodes and ten queries; distinct = distinct trie",
+		Rule:     "a case is one trie, with the first call on its fresh snapshot drawn from Hash/GetProof of a stored key/GetProof of an absent key/Flush (GetProof must hash the trie itself), either tiny (1-2 short keys, root node around or below the 32-byte embedding size) or regular (3-14 keys of 0-4 bytes with shared prefixes plus 32-byte keys differing in one nibble, values 1-70 bytes around the inlining threshold, a quarter of the keys deleted again) with: GetProof+Prove for up to 8 stored keys, the byte prefixes / extensions / siblings of stored keys and a random key; for 3 stored keys every proof element bit-flipped, replaced by another node, dropped, swapped, duplicated, trailing elements appended, the proof presented for other keys, against a random root, the empty root, an inner node's hash and the root of a trie with one more pair; then ONE verifier object proves up to 4 stored keys in sequence, is flushed in between, and is offered proofs of already-touched paths with each element bit-flipped or taken from the proof under another root (same keys, other values); corpus cases first; non-trivial = at least two hashed nodes and ten queries; distinct = distinct trie",
 		Shard:    10,
 		Preamble: tl.Preamble("C18"),
 		Gen:      gen, Replay: replay,
